@@ -21,6 +21,9 @@
 #include <rapidcheck/detail/Configuration.h>
 using namespace vh;
 typedef std::vector<uint32_t> CPS;
+// rapidcheck's deep call stacks make ASan's stack depot (one entry per distinct 30-frame allocation stack) grow by ~70 kB per case;
+// 8 frames still show the library frames of every report.  Options named in ASAN_OPTIONS by the driver take precedence.
+extern "C" const char *__asan_default_options() { return "malloc_context_size=8:quarantine_size_mb=32"; }
 
 // ------------------------------------------------------------------------------------------------ small helpers
 static CPS to_cps(const ustr &s) {   // lenient: an unpaired surrogate is delivered as itself
